@@ -12,6 +12,7 @@ mod coremode;
 mod tymode;
 mod impmode;
 mod projmode;
+mod rendermode;
 
 fn main() {
     let args: Vec<String> = std::env::args().collect();
@@ -63,6 +64,7 @@ fn dispatch(mode: &str, payload: &str) -> String {
         "core" => coremode::print(payload),
         "imports" => impmode::imports(payload),
         "proj" => projmode::proj(payload),
+        "render" => rendermode::render(payload),
         "tysup" => tymode::sup(payload),
         "tyunion" => tymode::union(payload),
         "tyclasses" => tymode::classes(payload),
